@@ -228,12 +228,13 @@ def plan(tier, seed, workdir):
         body = CORE.format(name=name, args=args, pos=k, lo=lo, hi=hi)
         body += hgen.harness('spell', 'n: int', [f'{lo} <= n <= {hi}'], core_call='core_spell(n)')
         path = hgen.write_module(workdir, f'c12_fn_{tag}', body)
-        hgen.ch_tasks(p, path, 'spell', timeout, family='library numeric parameter', function=name, position=k, range=[lo, hi])
+        hgen.ch_tasks(p, path, 'spell', timeout, family='library numeric parameter', function=name, position=k, range=[lo, hi],
+                      enum={'n': list(range(lo, hi + 1))})
     for i, expr in enumerate(VALUE_EXPRS):
         body = CORE_VAL.format(expr=expr)
         body += hgen.harness('val', 'n: int', ['-3 <= n <= 11'], core_call='core_val(n)')
         path = hgen.write_module(workdir, f'c12_val_{i:02d}', body)
-        hgen.ch_tasks(p, path, 'val', timeout, family='number as a value', expr=expr)
+        hgen.ch_tasks(p, path, 'val', timeout, family='number as a value', expr=expr, enum={'n': list(range(-3, 12))})
     from . import c05
     ngen = 0
     for name, fi in sorted(info.items()):
@@ -243,7 +244,8 @@ def plan(tier, seed, workdir):
         body = CORE_GEN.format(name=name, spec=spec)
         body += hgen.harness('gen', 'n: int, n2: int', ['-2 <= n <= 5', '-2 <= n2 <= 5'], core_call='core_gen(n, n2)')
         path = hgen.write_module(workdir, f'c12_gen_{name}', body)
-        hgen.ch_tasks(p, path, 'gen', timeout, est=15, family='every other library function, valid-kind arguments in both spellings', function=name)
+        hgen.ch_tasks(p, path, 'gen', timeout, est=15, family='every other library function, valid-kind arguments in both spellings', function=name,
+                      enum={'n': list(range(-2, 6)), 'n2': list(range(-2, 6))})
         ngen += 1
     p.extra_coverage['generic_functions'] = ngen
     p.rule = ('one CrossHair condition per (library function, numeric parameter) and per value expression; symbolic integral n, both '
